@@ -384,6 +384,8 @@ pub(crate) fn process_handler_blueprint(
             user_data,
             fd
           );
+          #[cfg(rzmq_verif)]
+          crate::verif::uring::fd_event(crate::verif::uring::FdEvent::CloseSubmitted(fd));
         }
       }
       Ok(())
@@ -867,6 +869,8 @@ pub(crate) fn process_all_cqes(
           }
         }
         InternalOpType::CloseFd => {
+          #[cfg(rzmq_verif)]
+          crate::verif::uring::fd_event(crate::verif::uring::FdEvent::CloseCompleted(handler_fd, cqe_result));
           if cqe_result >= 0 {
             info!(
               "CQE Processor: Internal CloseFd op (ud:{}) for FD {} successful.",
